@@ -62,6 +62,66 @@ def _mk_top_method_port():
   return OLTop()
 
 
+def _mk_loop():
+  """a false loop between two update blocks (disjoint nibbles of x and y) next to top-level methods: the pass has to iterate the group"""
+  from pymtl3 import Component, Wire, Bits8, update, method_port, M, U
+
+  class OLLoop(Component):
+    def construct(s):
+      s.v = Wire(Bits8)
+      s.x = Wire(Bits8)
+      s.y = Wire(Bits8)
+      s.held = 0
+
+      @update
+      def up_a():
+        s.x[0:4] @= s.v[0:4] + 1
+        s.x[4:8] @= s.y[0:4]
+
+      @update
+      def up_b():
+        s.y[0:4] @= s.x[0:4] + 2
+        s.y[4:8] @= s.x[4:8]
+
+      @update
+      def up_v():
+        s.v @= s.held
+
+      s.add_constraints(M(s.push) < U(up_v), U(up_b) < M(s.pull))
+
+    @method_port
+    def push(s, e):
+      s.held = e
+
+    @method_port
+    def pull(s):
+      return s.y
+
+    def line_trace(s): return ""
+  return OLLoop()
+
+
+class LoopModel:
+  required = [("push", "up_v"), ("up_v", "up_a"), ("up_b", "pull"), ("up_a", "pull")]
+  blocks = {"up_a", "up_b", "up_v"}
+  scc = {"up_a", "up_b"}          # members of the iterated group may run several times per cycle
+
+  def __init__(self):
+    self.held = 0; self.v = 0; self.x = 0; self.y = 0
+
+  def event(self, name, args, ret):
+    if name == "up_v": self.v = self.held & 0xFF
+    elif name == "up_a": self.x = (((self.v & 15) + 1) & 15) | ((self.y & 15) << 4)
+    elif name == "up_b": self.y = (((self.x & 15) + 2) & 15) | (self.x & 0xF0)
+    elif name == "push": self.held = args[0]
+    elif name == "pull":
+      y0 = (((self.v & 15) + 1 & 15) + 2) & 15
+      fp = y0 | (y0 << 4)                                   # the unique fixed point for the current v
+      if ret is None or int(ret) != self.y: return f"pull returned {ret}, the executed order gives {self.y}"
+      if int(ret) != fp: return f"pull returned {ret:#x}, the fixed point of the loop for v={self.v} is {fp:#x}"
+    return None
+
+
 def _mk_queue(kind, cap):
   import pymtl3.stdlib.queues.cl_queues as clq
   return getattr(clq, kind)(cap)
@@ -126,7 +186,8 @@ class QueueModel:
 
 
 def designs():
-  out = [("OLTop", _mk_top_method_port, TopModel, [("call", "push", 7), ("call", "push", 9), ("call", "pull")])]
+  out = [("OLTop", _mk_top_method_port, TopModel, [("call", "push", 7), ("call", "push", 9), ("call", "pull")]),
+         ("OLLoop", _mk_loop, LoopModel, [("call", "push", 3), ("call", "push", 9), ("call", "pull")])]
   for kind in ("PipeQueueCL", "BypassQueueCL", "NormalQueueCL"):
     for cap in (1, 2):
       out.append((f"{kind}({cap})", (lambda k=kind, c=cap: _mk_queue(k, c)), (lambda k=kind, c=cap: QueueModel(k, c)),
@@ -144,7 +205,10 @@ def run_sequence(factory, mk_model, seq):
   top = factory()
   top.elaborate()
   top.apply(GenDAGPass())
-  top.apply(OpenLoopCLPass(print_line_trace=False))
+  try:
+    top.apply(OpenLoopCLPass(print_line_trace=False))
+  except Exception as ex:
+    return [], [("pass-raised", "the design is scheduled", f"{type(ex).__name__}: {str(ex)[:120]}", "")]
   model = mk_model()
   codes = {}
   for blk in top.get_all_update_blocks():
@@ -186,12 +250,15 @@ def run_sequence(factory, mk_model, seq):
     by_cycle.setdefault(c, []).append(nm)
   req = model.required
   for c, names in sorted(by_cycle.items()):
-    if len(set(names)) != len(names):
-      dup = [n for n in names if names.count(n) > 1][0]
-      fails.append(("executed-twice-in-one-cycle", "at most once", dup, f"cycle {c}: {names}")); break
-    pos = {n: i for i, n in enumerate(names)}
+    scc = getattr(model, "scc", set())
+    dups = [n for n in names if names.count(n) > 1 and n not in scc]
+    if dups:
+      fails.append(("executed-twice-in-one-cycle", "at most once", dups[0], f"cycle {c}: {names}")); break
+    first, pos = {}, {}
+    for i, n in enumerate(names):
+      first.setdefault(n, i); pos[n] = i                    # pos = LAST execution (members of an iterated group repeat)
     for a, b in req:
-      if a in pos and b in pos and pos[a] > pos[b]:
+      if a in pos and b in first and pos[a] > first[b] and not (a in scc and b in scc):
         fails.append((f"constraint-violated:{a}<{b}", f"{a} before {b}", names, f"cycle {c}")); break
     # earliest cycle: if everything executed so far in this cycle is strictly before X in the design's partial order, every legal
     # schedule has X later in the same cycle, so the call must not have been pushed into the next cycle
